@@ -377,6 +377,47 @@ def run_limit(case: dict) -> Outcome:
     return out
 
 
+@st.composite
+def limit_multi_case(draw):
+    """Several queues and a message limit: a message of another queue is fetched while the limit is being reached and handed
+    back while the last counted execution ends - durations on a microsecond grid so the two overlap in every possible way."""
+    broker = draw(st.sampled_from(["mem", "redis", "redis", "amqp", "amqp"]))
+    nq = draw(st.integers(2, 3))
+    actors = [{"name": f"a{q}", "queue": f"q{q}", "shape": "plain"} for q in range(nq)]
+    dur = st.one_of(st.integers(0, 40_000).map(lambda us: us / 1e6), st.sampled_from([0.0, 0.2]))
+    jobs = []
+    for q in range(nq):
+        for _ in range(draw(st.integers(1, 3))):
+            i = len(jobs)
+            jobs.append({"id": f"j{i}", "actor": f"a{q}", "queue": f"q{q}", "retries": 0, "store_result": draw(st.integers(0, 3)) == 0,
+                         "attempts": [{"k": "ret", "v": i, "sleep": draw(dur)}],
+                         "enqueue_at": draw(st.one_of(st.just(0.0), st.integers(0, 30_000).map(lambda us: us / 1e6)))})
+    case = {"broker": broker, "seed": draw(st.integers(0, 2**16)), "converter": "basic", "actors": actors,
+            "policy": {"kind": "table", "values": [0.02]},
+            "worker": {"tasks_limit": draw(st.sampled_from([1, 2, 1000])), "graceful": draw(st.sampled_from([0.0, 0.5, 25.0])),
+                       "messages_limit": draw(st.integers(1, max(1, len(jobs) - 1)))},
+            "jobs": jobs, "horizon": 12.0, "stop": "limit", "monitor_poll": 0.02}
+    if broker != "mem":
+        case["lat"] = draw(st.lists(st.sampled_from([0.0, 0.001, 0.002, 0.005]), min_size=4, max_size=40))
+    return case
+
+
+def run_limit_multi(case: dict) -> Outcome:
+    out = Outcome()
+    try:
+        tr = scenario.run_case(case, settled=lambda t: False)
+    except (vclock.StepLimit, vclock.Deadlock) as e:
+        out.inconclusive = True
+        out.info["watchdog"] = str(e)
+        return out
+    check_after_stop(out, tr, case, None)
+    handed_back = [e for e in tr.spy.events if e.op == "reject"]
+    out.nontrivial = not tr.horizon_hit and bool(handed_back)
+    out.cls("broker-" + case["broker"], "stopped-by-limit" if not tr.horizon_hit else "limit-not-reached",
+            "hand-back" if handed_back else "no-hand-back")
+    return out
+
+
 # ------------------------------------------------------------------------------------------------ process death (Redis / AMQP)
 
 
@@ -542,7 +583,8 @@ CHECK = Check(
         "success, failure, retry, eager ack / force_retry, result store, argument bucket, recurring; tasks_limit 1-2; actor durations "
         "0-50 ms; graceful period 0 / 0.01 / 0.5 / 2 / 25 s) x broker (in-memory, Redis model, AMQP model). stop-*: the worker's own "
         "signal handler is invoked at loop step k (quick: k drawn by Hypothesis over the dry-run step range; thorough: every k "
-        "enumerated). limit-*: the worker stops by messages_limit 1-3. kill-*: the client dies at step k without any cleanup (Redis: "
+        "enumerated). limit: the worker stops by messages_limit 1-3; limit-multi: generated workloads over 2-3 queues with microsecond-grid "
+        "durations, so a message of another queue is fetched and handed back while the last counted execution ends. kill-*: the client dies at step k without any cleanup (Redis: "
         "then maintenance before and after the execution timeout; AMQP: the server requeues). Oracle: run() returns within graceful+7 s; "
         "after return and loop idle every message is, consistently with the terminal calls that completed (interrupted calls may or may "
         "not have taken effect), absent / dead / queued exactly once - never vanished, duplicated or still in flight - a returned "
@@ -562,6 +604,7 @@ CHECK = Check(
         SubCheck("stop-random-redis", lambda: random_stop_case("redis"), run_random_stop, quick=10, thorough=500),
         SubCheck("stop-random-amqp", lambda: random_stop_case("amqp"), run_random_stop, quick=10, thorough=500),
         SubCheck("limit", lambda: st.one_of(limit_case("mem"), limit_case("redis"), limit_case("amqp")), run_limit, quick=12, thorough=300),
+        SubCheck("limit-multi", limit_multi_case, run_limit_multi, quick=60, thorough=3000),
         SubCheck("kill-redis", lambda: kill_case("redis"), run_kill, quick=30, thorough=0, enumerate_cases=enumerate_kill("redis"), exhaustive=True),
         SubCheck("kill-amqp", lambda: kill_case("amqp"), run_kill, quick=20, thorough=0, enumerate_cases=enumerate_kill("amqp"), exhaustive=True),
     ],
